@@ -245,9 +245,15 @@ fn detinv_f(t: &mut Toks, cx: &mut Ctx) -> String {
                                 let w = |r: usize, c: usize| -> f64 { (0..n).map(|k| { let l = if k < r { lu[(r, k)].abs() } else if k == r { 1.0 } else { 0.0 }; let u_ = if k <= c { lu[(k, c)].abs() } else { 0.0 }; l * u_ }).sum() };
                                 let mut sens = 0.0f64;
                                 for i in 0..n { let r = (0..n).find(|r| perm[(*r, i)] == 1.0).unwrap_or(i); for j in 0..n { sens += cof[i][j].to_f64().abs() * w(r, j); } }
-                                let bound = 2.0 * (g(n) * det.to_f64().abs() + (1.0 + g(n)) * g(n.saturating_sub(1)) * sens) + 1e-300;
+                                // terms of the determinant with two or more perturbed factors (they dominate when the rank is <= n - 2 and
+                                // every cofactor vanishes): n! [ (a + e)^n - a^n - n a^(n-1) e ] with a = max|a_ij|, e = max|dA_ij|
+                                let amax = (0..n).flat_map(|i| (0..n).map(move |j| (i, j))).map(|(i, j)| a[(i, j)].abs()).fold(0.0, f64::max);
+                                let wmax = (0..n).flat_map(|r| (0..n).map(move |c| (r, c))).map(|(r, c)| w(r, c)).fold(0.0, f64::max);
+                                let e = g(n.saturating_sub(1)) * wmax; let nf: f64 = (1..=n).map(|k| k as f64).product();
+                                let second = if n < 2 { 0.0 } else { nf * (n as f64) * ((n as f64) - 1.0) / 2.0 * e * e * (amax + e).powi(n as i32 - 2) * 2.0 };
+                                let bound = 2.0 * (g(n) * det.to_f64().abs() + (1.0 + g(n)) * g(n.saturating_sub(1)) * sens) + (1.0 + g(n)) * second + 1e-300;
                                 cx.meta("det_backward_bound_checked", 1);
-                                cx.check((x - det.to_f64()).abs() <= bound, &format!("determinant: |d - det A| = {:e} exceeds the backward-stability bound {:e} of theorem determinant_backward (g_n |det| + g_(n-1) sum |cof_ij| (P^T|L||U|)_ij)", (x - det.to_f64()).abs(), bound));
+                                cx.check((x - det.to_f64()).abs() <= bound, &format!("determinant: |d - det A| = {:e} exceeds the backward-stability bound {:e} of theorem determinant_backward (g_n |det| + g_(n-1) sum |cof_ij| (P^T|L||U|)_ij + second-order terms)", (x - det.to_f64()).abs(), bound));
                             } } }
                     }
                     Err(c) => cx.fail(format!("determinant panicked ({})", c)),
